@@ -1,169 +1,99 @@
 /-
   C18 — Materialization and incremental maintenance are invisible.
-  Model: ILV.Model.Incr (`ILV.C18.step`, mirror of derived_relations.rs + the rule/materialisation
-  paths of storage_engine/mod.rs). Helper lemmas: ILV.Lemmas.Incr.
+  Model: ILV.Model.Incr (`ILV.C18.step`): derived_relations.rs + the rule/materialisation paths of
+  storage_engine/mod.rs AFTER the repairs fixes/C18-1..4. Lemmas: ILV.Lemmas.Incr* (no Mathlib).
 -/
-import ILV.Lemmas.IncrRun
-import ILV.Lemmas.IncrNoMat
-import ILV.Lemmas.IncrRecRun
+import ILV.Lemmas.IncrFullRun
 namespace ILV.Props.C18
 open ILV.C18
 
-/-! ### names used in the concrete witnesses: a = [97], b = [98], e = [101], f = [102], g = [103] -/
+/-- **C18, full statement.** After EVERY history of inserts, deletes, prefix clears, rule registrations,
+    clause removals / replacements / clears, rule / prefix / relation drops, index creation (which
+    switches incremental maintenance on) and drops, and materialisations — for every rule set the
+    catalogue accepts (chains of derived relations, recursion, anything) — that respects the API's own
+    contract (`wellUsed`: only a relation that has clauses is materialised, and with its complete current
+    extension; a rule head carries no stored tuples; a replacement clause keeps its head), every query is
+    answered from the published snapshot exactly as a fresh evaluation of the current
+    rules over the current facts answers it. -/
+theorem C18 (h : List Step) (q : Atom) (hw : wellUsed init h = true) :
+    SetEq (answer (snapDb (run h)) q) (answer (fresh (run h)) q) :=
+  fanswers_agree (finv_run h hw) q
+
+/-- The model's evaluator (naive iteration with a fuel bound and early stop) always reaches its
+    fix-point within the bound, so nothing in `C18` is conditional on it. -/
+theorem C18_evaluator_total (prog : List Clause) (inputs : List (Name × List Tup)) : conv prog inputs = true :=
+  conv_always prog inputs
+
+/-- The invariant behind it (DESIGN: `valid m → m.tuples = PM(name)`), now without any restriction on
+    the rules: every valid materialisation equals the fresh evaluation of its relation. -/
+theorem C18_valid_is_fresh (h : List Step) (hw : wellUsed init h = true)
+    (i : Inc) (n : Name) (m : Mat) (hi : (run h).inc = some i) (hm : aget i.mats n = some m)
+    (hv : m.valid = true) : SetEq m.tuples (fresh (run h) n) :=
+  ((finv_run h hw).core.mats i n m hi hm hv).2
+
+/-- the published snapshot is always the current one … -/
+theorem C18_snapshot_current (h : List Step) (hw : wellUsed init h = true) :
+    (run h).snap = mkSnap (run h) :=
+  (finv_run h hw).snap
+
+/-- … and the engine's rule registry always knows every dependency of every catalogued rule. -/
+theorem C18_edges_registered (h : List Step) (hw : wellUsed init h = true)
+    (i : Inc) (hi : (run h).inc = some i) (n : Name) (c : Clause) (hcl : c ∈ clausesNow (run h) n)
+    (r : Name) (hr : r ∈ bodyRels c) (hne : r ≠ n) : n ∈ (aget i.b2d r).getD [] :=
+  (finv_run h hw).core.edges i hi n c hcl r hr hne
+
+/-! ### the hypotheses are met by non-trivial histories: the four former refutation witnesses -/
+
 def nA : Name := [97]
 def nB : Name := [98]
+def nE : Name := [101]
 def nF : Name := [102]
 def nG : Name := [103]
+def nP : Name := [112]
 def vX : Term := .var 88
-
-/-- `a(X) <- f(X)`, `b(X) <- a(X)`, `b(X) <- f(X)`, `b(X) <- g(X)` -/
+def vY : Term := .var 89
+def vZ : Term := .var 90
 def cAF : Clause := ⟨⟨nA, [vX]⟩, [⟨nF, [vX]⟩]⟩
 def cBA : Clause := ⟨⟨nB, [vX]⟩, [⟨nA, [vX]⟩]⟩
 def cBF : Clause := ⟨⟨nB, [vX]⟩, [⟨nF, [vX]⟩]⟩
 def cBG : Clause := ⟨⟨nB, [vX]⟩, [⟨nG, [vX]⟩]⟩
 def qB : Atom := ⟨nB, [vX]⟩
-
-/-- The statement, at full strength: after EVERY history of inserts, deletes, rule registrations,
-    clause removals/replacements, rule and relation drops, index creation (which switches incremental
-    maintenance on) and materialisations that respects the API's own contract (`WellUsed`: only
-    derived relations are materialised, with their complete current extension; rule heads carry no
-    stored tuples), every query is answered from the published snapshot exactly as a fresh
-    evaluation of the current rules over the current facts answers it. -/
-def C18_statement : Prop :=
-  ∀ (h : List Step) (q : Atom), wellUsed init h = true →
-    SetEq (answer (snapDb (run h)) q) (answer (fresh (run h)) q)
-
-/-- witness: `idx ; ins f 1 ; reg a(X)<-f(X) ; reg b(X)<-a(X) ; mat b ; ins f 2` then `?b(X)`. -/
-def witness : List Step :=
-  [.idx, .ins nF [[1]], .reg cAF, .reg cBA, .mat nB 1, .ins nF [[2]]]
-
-/-- The pinned code violates the statement: `b` stays valid (only `a` is a registered dependent of
-    `f`; `derived_to_derived` is empty) and the snapshot keeps answering `[1]`. -/
-theorem C18_refuted : ¬ C18_statement := by
-  intro h
-  have h1 := h witness qB (by decide)
-  have h2 : ([2] : Tup) ∈ answer (fresh (run witness)) qB := by decide
-  have h3 : ¬ ([2] : Tup) ∈ answer (snapDb (run witness)) qB := by decide
-  exact h3 ((h1 [2]).mpr h2)
-
-/-- what the engine under test and its twin answer on the witness. -/
-example : answer (snapDb (run witness)) qB = [[1]] ∧ answer (fresh (run witness)) qB = [[1], [2]] := by decide
-
-/-- DESIGN's first reading of the defect ("`b` is auto-materialised empty at registration") does NOT
-    happen on the pinned tree: `auto_materialize_rule` always fails, registration alone materialises
-    nothing and the answers stay right … -/
-example : (run [.idx, .ins nF [[1]], .reg cAF, .reg cBA]).inc.map validMats = some [] ∧
-    answer (snapDb (run [.idx, .ins nF [[1]], .reg cAF, .reg cBA, .ins nF [[2]]])) qB = [[1], [2]] := by decide
-
-/-- … but it is exactly what a repaired query line in `auto_materialize_rule` would produce
-    (`autoMatWorks = true`): `b` is evaluated without `a`'s rule, stored empty and valid. -/
-theorem C18_latent_autoMat :
-    let s := runFrom true init [.idx, .ins nF [[1]], .reg cAF, .reg cBA]
-    answer (evalProg s.snap.rules s.snap.inputs) qB = [] ∧ answer (fresh s) qB = [[1]] := by decide
-
-/-- The other three defect families, each by its witness (incremental answer, fresh answer). -/
-theorem C18_rule_edit_stale :
-    let s := run [.idx, .ins nF [[1]], .ins nG [[2]], .reg cBF, .mat nB 1, .reg cBG]
-    answer (snapDb s) qB = [[1]] ∧ answer (fresh s) qB = [[1], [2]] := by decide
-
-theorem C18_drop_relation_stale :
-    let s := run [.idx, .ins nF [[1]], .reg cBF, .mat nB 1, .drel nF]
-    answer (snapDb s) qB = [[1]] ∧ answer (fresh s) qB = [] := by decide
-
-theorem C18_edge_missing_stale :
-    let s := run [.ins nF [[1]], .reg cBF, .idx, .mat nB 1, .ins nF [[2]]]
-    answer (snapDb s) qB = [[1]] ∧ answer (fresh s) qB = [[1], [2]] := by decide
-
-/-! ### what does hold, for all histories -/
-
-/-- **Partial theorem.** Fix any set `B` of base-relation names. For EVERY history (any length, any
-    values, any mix of the 15 step kinds) that passes the decidable check `safe B` — rules read
-    relations of `B` only and their heads are outside `B`; clauses are not added/removed/replaced/
-    cleared under a valid materialisation; a relation is not dropped under a valid materialisation
-    reading it; a relation is materialised only when all its dependency edges are registered (and,
-    API contract, only a relation with clauses, with its complete extension) — every query on the
-    published snapshot returns exactly the fresh evaluation's answer. The four excluded situations
-    are the four known findings. -/
-theorem C18_partial (B : List Name) (h : List Step) (q : Atom) (hs : safe B init h = true) :
-    SetEq (answer (snapDb (run h)) q) (answer (fresh (run h)) q) :=
-  answers_agree (inv_run h hs) q
-
-/-- The invariant behind it (DESIGN: `valid m → m.tuples = PM(name)`): after every safe history every
-    valid materialisation equals the fresh evaluation of its relation. -/
-theorem C18_valid_is_fresh (B : List Name) (h : List Step) (hs : safe B init h = true)
-    (i : Inc) (n : Name) (m : Mat) (hi : (run h).inc = some i) (hm : aget i.mats n = some m)
-    (hv : m.valid = true) : SetEq m.tuples (fresh (run h) n) :=
-  valid_is_fresh (inv_run h hs) i n m hi hm hv
-
-/-- … and the published snapshot is always the current one. -/
-theorem C18_snapshot_current (B : List Name) (h : List Step) (hs : safe B init h = true) :
-    (run h).snap = mkSnap (run h) :=
-  (inv_run h hs).snap
-
-/-- **Partial theorem, self-recursive rules admitted** (transitive-closure style). As `C18_partial`,
-    but a clause body may also mention the clause's own head (`safeRec`). The evaluator is iterated with
-    a fuel bound; instead of proving the bound sufficient, `safeRec` additionally checks (decidably) that
-    every evaluation of every visited state reached its fix-point — for non-recursive rule sets that is
-    a theorem (`conv_oneLevel`), and the driver observes it on every generated history. -/
-theorem C18_partial_rec (B : List Name) (h : List Step) (q : Atom) (hs : safeRec B init h = true) :
-    SetEq (answer (snapDb (run h)) q) (answer (fresh (run h)) q) :=
-  ranswers_agree (rinv_run h hs) q
-
-theorem C18_valid_is_fresh_rec (B : List Name) (h : List Step) (hs : safeRec B init h = true)
-    (i : Inc) (n : Name) (m : Mat) (hi : (run h).inc = some i) (hm : aget i.mats n = some m)
-    (hv : m.valid = true) : SetEq m.tuples (fresh (run h) n) :=
-  rvalid_is_fresh (rinv_run h hs) i n m hi hm hv
-
-/-- transitive closure `p(X,Y) <- e(X,Y). p(X,Z) <- p(X,Y), e(Y,Z).` materialised, invalidated by an insert
-    into `e`, re-materialised, invalidated by a delete. -/
-def nE : Name := [101]
-def nP : Name := [112]
-def vY : Term := .var 89
-def vZ : Term := .var 90
 def cPE : Clause := ⟨⟨nP, [vX, vY]⟩, [⟨nE, [vX, vY]⟩]⟩
 def cPR : Clause := ⟨⟨nP, [vX, vZ]⟩, [⟨nP, [vX, vY]⟩, ⟨nE, [vY, vZ]⟩]⟩
 def qP : Atom := ⟨nP, [vX, vY]⟩
-def recHist : List Step :=
-  [.idx, .ins nE [[1, 2], [2, 3]], .reg cPE, .reg cPR, .mat nP 2, .q qP, .ins nE [[3, 4]], .q qP,
-   .mat nP 2, .del nE [[1, 2]], .q qP]
 
-example : safeRec [nE] init recHist = true := by decide
-example : answer (snapDb (run (recHist.take 5))) qP = [[1, 2], [2, 3], [1, 3]] ∧
-    (run (recHist.take 5)).snap.rules = [] := by decide
-example : answer (snapDb (run recHist)) qP = [[2, 3], [3, 4], [2, 4]] := by decide
-/-- **What the server can reach.** On the pinned tree nothing but the explicit
-    `materialize_derived_relation` call ever stores a materialisation (`auto_materialize_rule` fails),
-    and the protocol handler never makes that call. For EVERY history without `mat` steps and EVERY
-    rule set (derived-on-derived chains, recursion, anything the catalogue accepts) the published
-    snapshot is the current facts plus all rules, so the engine under test evaluates literally the
-    same program over the same tuples as a fresh evaluation. -/
-theorem C18_without_materialize (h : List Step) (hs : h.all (fun st => !(isMat st)) = true) :
-    snapDb (run h) = fresh (run h) ∧ ∀ i, (run h).inc = some i → validMats i = [] := by
-  have hI := nomat_runFrom h (s := init) ⟨rfl, fun i hi => by simp [init] at hi⟩ hs
-  refine ⟨nomat_snapDb hI, ?_⟩
-  intro i hi
-  simp [validMats, hI.empty i hi]
+/-- derived-on-derived (was `C18_refuted`): `b` reads `a` reads `f`; `b` is materialised; `f` changes. -/
+def wDerived : List Step := [.idx, .ins nF [[1]], .reg cAF, .reg cBA, .mat nB 1, .ins nF [[2]]]
+/-- a clause is added under a valid materialisation (was `C18_rule_edit_stale`). -/
+def wEdit : List Step := [.idx, .ins nF [[1]], .ins nG [[2]], .reg cBF, .mat nB 1, .reg cBG]
+/-- the relation a materialisation reads is dropped (was `C18_drop_relation_stale`). -/
+def wDrop : List Step := [.idx, .ins nF [[1]], .reg cBF, .mat nB 1, .drel nF]
+/-- the rule is older than the engine (was `C18_edge_missing_stale`). -/
+def wLate : List Step := [.ins nF [[1]], .reg cBF, .idx, .mat nB 1, .ins nF [[2]]]
 
-/-- its hypothesis on DESIGN's original witness (no `mat` step), with incremental maintenance on. -/
-example : ([.idx, .ins nF [[1]], .reg cAF, .reg cBA, .ins nF [[2]], .q qB] : List Step).all
-    (fun st => !(isMat st)) = true := by decide
+example : wellUsed init wDerived = true := by decide
+example : wellUsed init wEdit = true := by decide
+example : wellUsed init wDrop = true := by decide
+example : wellUsed init wLate = true := by decide
 
-/-- a non-trivial safe history: two clauses for `b` over `f`, `g`; materialised; used by a query while
-    valid (`[[1],[2]]` comes out of the merged snapshot, the prefix holds no rule); invalidated by an
-    insert into `g`; re-materialised; a base relation cleared by prefix. -/
-def safeHist : List Step :=
-  [.idx, .ins nF [[1]], .ins nG [[2]], .reg cBF, .reg cBG, .mat nB 1, .q qB, .ins nG [[3]], .q qB,
-   .mat nB 1, .clrp nF, .q qB]
+/-- what the repaired machine answers on them (each was `[[1]]` before the repair), and that the stale
+    materialisation is gone in each case. -/
+example : answer (snapDb (run wDerived)) qB = [[1], [2]] ∧ (run wDerived).inc.map validMats = some [] := by decide
+example : answer (snapDb (run wEdit)) qB = [[1], [2]] ∧ (run wEdit).inc.map validMats = some [] := by decide
+example : answer (snapDb (run wDrop)) qB = [] ∧ (run wDrop).inc.map validMats = some [] := by decide
+example : answer (snapDb (run wLate)) qB = [[1], [2]] ∧ (run wLate).inc.map validMats = some [] := by decide
 
-example : safe [nF, nG] init safeHist = true := by decide
-example : wellUsed init safeHist = true := by decide
-example : (run (safeHist.take 6)).snap.rules = [] ∧ answer (snapDb (run (safeHist.take 6))) qB = [[1], [2]] := by decide
-example : (run (safeHist.take 8)).inc.map validMats = some [] := by decide
-example : answer (snapDb (run safeHist)) qB = [[2], [3]] := by decide
-/-- the refutation witness is rejected by `safe` for every choice of `B` containing `f`: `b` reads `a`. -/
-example : safe [nF] init witness = false ∧ safe [nF, nA] init witness = false := by decide
+/-- a history in which materialisations are USED: transitive closure `p` and `b(X) <- a(X)` over
+    `a(X) <- f(X)`, both materialised, a query answered from the merged snapshot (no rule of `p` or `b`
+    in the prefix), an unrelated insert that leaves `p` valid and invalidates `b`. -/
+def wUse : List Step :=
+  [.idx, .ins nE [[1, 2], [2, 3]], .ins nF [[7]], .reg cPE, .reg cPR, .reg cAF, .reg cBA,
+   .mat nP 2, .mat nB 1, .q qP, .ins nF [[8]], .q qP, .q qB]
 
-/-- `safe` (the non-recursive fragment) rejects the recursive history; `safeRec` also accepts the non-recursive one. -/
-example : safe [nE] init recHist = false ∧ safeRec [nF, nG] init safeHist = true := by decide
+example : wellUsed init wUse = true := by decide
+example : (run (wUse.take 9)).snap.rules = [cAF] ∧
+    answer (snapDb (run (wUse.take 9))) qP = [[1, 2], [2, 3], [1, 3]] := by decide
+example : (run wUse).inc.map validMats = some [(nP, [[1, 2], [2, 3], [1, 3]])] ∧
+    answer (snapDb (run wUse)) qB = [[7], [8]] := by decide
 
 end ILV.Props.C18
